@@ -300,8 +300,12 @@ def harness_build(bin_name, features, profile, timeout=1800):
     rc, out, err = sh(cmd, timeout, cwd=hdir, env=env)
     exe = os.path.join(target, "release" if profile == "release" else "debug", bin_name)
     if rc != 0:
-        errs = [l for l in err.split("\n") if l.startswith("error")]
-        return None, "\n".join(errs[:10]) + "\n" + err[-1500:]
+        lines = err.split("\n")
+        keep = []
+        for i, l in enumerate(lines):
+            if l.startswith("error"):
+                keep += lines[i:i + 14]
+        return None, "\n".join(keep[:80]) or err[-1500:]
     return exe, ""
 
 
